@@ -6,7 +6,8 @@
 # Exit 2: machinery error (build, GMP bootstrap, fixture gate, oracle disagreement, crash, nothing explored)
 set -u
 ID="${1:-}"; MODE="${2:-quick}"
-VERIF=/verif
+VERIF=$(cd "$(dirname "$0")" && pwd)
+export VERIF_ROOT=$VERIF
 export CARGO_NET_OFFLINE=true
 export CARGO_TARGET_DIR=$VERIF/target
 export GMP_MPFR_SYS_CACHE=$VERIF/.cache/gmp-mpfr-sys
